@@ -38,6 +38,8 @@ def _list(I, args, kw):
         h = I.ext.get("model.tolist")
         if h:
             return h(I, [v], {})
+    if isinstance(v, ModelObj) and hasattr(v, "m_to_list"):
+        return v.m_to_list(I)  # list(x) of a library object whose content is opaque
     it = I.iterate(v)
     if isinstance(it, SymList):
         return it.do_copy(I)
